@@ -12,7 +12,7 @@ Theorem C03_reconnect_lower_rm_refuted :
     oc = Fine /\
     (* after the reconnect with Receive Maximum 1, two QoS 1 PUBLISH packets with distinct ids are
        on the wire and none has been acknowledged *)
-    map (fun p => (pid p, pdup p)) (concat (skipn 6 outs)) = [(2, true); (1, true)].
+    map (fun p => (pid p, pdup p)) (concat (skipn 6 outs)) = [(1, true); (2, true)].
 Proof.
   exists [ESend 0 (mkPkt (KPub 1) 0 1 None false); EPop 0; ESend 0 (mkPkt (KPub 1) 0 2 None false); EPop 0;
           EClose 0; EOpen 1; EPop 0; EPop 0; EPop 0].
